@@ -648,6 +648,62 @@ static const char* const kAlphaR[] = {   // slot 4 Variant<T2,T1>, slot 5 Varian
     "mctor.5.5.0", "casg.5.5.0", "masg.5.5.0", "asgv.5.0.2", "asgm.5.1.3", "asgc.5.0.10", "asge.5.0.0", "become.5.0.0", "become.5.1.0", "become.5.2.0", "become.5.7.0",
     "become.5.-2.0", "asgv.4.1.6", "becomet.4.0.1", "visit.5.0.0", "cvisit.5.0.0", "get.5.0.23", "destroy.5.0.0", "destroy.4.0.0", "arm.0.0.0", "casg.4.4.0"};
 
+// ---- wide Variant: more alternatives than a signed byte can index ---------------------------------
+namespace wide {
+static long g_live = 0, g_bad = 0;
+template <int I> struct W {
+  int v; unsigned magic;
+  explicit W(int x = 0) : v(x), magic(0x57a11fe0u + I) { g_live++; }
+  W(const W& o) : v(o.v), magic(0x57a11fe0u + I) { if (o.magic != 0x57a11fe0u + I) g_bad++; g_live++; }
+  W& operator=(const W& o) { if (magic != 0x57a11fe0u + I || o.magic != 0x57a11fe0u + I) g_bad++; v = o.v; return *this; }
+  ~W() { if (magic != 0x57a11fe0u + I) g_bad++; magic = 0xdeadu; g_live--; }
+};
+template <typename Seq> struct Make;
+template <std::size_t... Is> struct Make<std::index_sequence<Is...>> { using type = nop::Variant<W<(int)Is>...>; };
+static constexpr int kCount = 140;
+using WV = Make<std::make_index_sequence<kCount>>::type;
+
+template <int I> static int visit_value(const W<I>& x) { return x.v; }
+static int visit_value(nop::EmptyVariant) { return -1; }
+// One alternative: assign, observe, copy, move, Become to the same index, switch to a neighbour, destroy.
+template <int I> static std::string probe() {
+  const long live0 = g_live;
+  std::string where = "Variant with " + std::to_string(kCount) + " alternatives, alternative " + std::to_string(I) + ": ";
+  {
+    WV v;
+    if (v.index() != -1 || !v.empty()) return "index-mismatch: " + where + "a default-constructed Variant is not empty";
+    v = W<I>(I + 1000);
+    if (v.index() != I) return "index-mismatch: " + where + "index() is " + std::to_string(v.index()) + " right after assigning that alternative";
+    if (!v.template is<W<I>>() || v.template get<W<I>>() == nullptr || v.template get<W<I>>()->v != I + 1000) return "wrong-value: " + where + "is<T>()/get<T>() do not see the assigned value";
+    if (g_live != live0 + 1) return "live-count: " + where + std::to_string(g_live - live0) + " elements alive, 1 expected after the assignment";
+    int seen = -2; v.Visit([&](const auto& x) { seen = visit_value(x); });
+    if (seen != I + 1000) return "wrong-value: " + where + "Visit passed " + (seen == -1 ? std::string("EmptyVariant") : std::to_string(seen));
+    WV c(v);
+    if (c.index() != I || c.template get<W<I>>() == nullptr || c.template get<W<I>>()->v != I + 1000) return "index-mismatch: " + where + "copy has index " + std::to_string(c.index());
+    if (g_live != live0 + 2) return "live-count: " + where + std::to_string(g_live - live0) + " elements alive, 2 expected after a copy";
+    WV m(std::move(c));
+    if (m.index() != I) return "index-mismatch: " + where + "move-constructed Variant has index " + std::to_string(m.index());
+    v.Become(I);   // already holds I: nothing is constructed or destroyed
+    if (v.index() != I || v.template get<W<I>>()->v != I + 1000) return "index-mismatch: " + where + "Become(same index) changed the Variant";
+    constexpr int J = I > 0 ? I - 1 : I + 1;
+    v = W<J>(7);
+    if (v.index() != J || v.template is<W<I>>()) return "index-mismatch: " + where + "after switching to alternative " + std::to_string(J) + " index() is " + std::to_string(v.index());
+    v = nop::EmptyVariant{};
+    if (!v.empty()) return "index-mismatch: " + where + "not empty after assigning EmptyVariant";
+  }
+  if (g_live != live0) return "final-leak: " + where + std::to_string(g_live - live0) + " elements still alive after all Variants are gone";
+  if (g_bad) return "tracker-error: " + where + "an element was used or destroyed while not alive";
+  return "";
+}
+static std::string run(int which) {
+  switch (which) {
+    case 0: return probe<0>(); case 1: return probe<1>(); case 2: return probe<63>(); case 3: return probe<126>(); case 4: return probe<127>();
+    case 5: return probe<128>(); case 6: return probe<129>(); default: return probe<139>();
+  }
+}
+static const int kProbes = 8;
+}  // namespace wide
+
 int main(int argc, char** argv) {
   Args a = Args::parse(argc, argv);
   Report rep; rep.property = "C12"; rep.tier = a.tier; rep.seed = a.seed; rep.out_path = a.out; rep.unit = a.unit.empty() ? "variant" : a.unit;
@@ -666,6 +722,11 @@ int main(int argc, char** argv) {
     while ((ch = fgetc(f)) != EOF) { if (ch == '\n') { if (!cur.empty() && cur[0] != '#') text = cur; cur.clear(); } else cur += (char)ch; }
     if (!cur.empty() && cur[0] != '#') text = cur;
     fclose(f);
+    if (text.compare(0, 14, "prop=C12 wide=") == 0) {
+      std::string m = wide::run(atoi(text.c_str() + 14));
+      if (!m.empty()) { printf("REPLAY-FAIL %s\n", m.c_str()); fflush(stdout); _exit(1); }
+      printf("REPLAY-PASS\n"); return 0;
+    }
     const std::string pre = "prop=C12 ops=";
     std::vector<Op> ops;
     if (text.compare(0, pre.size(), pre) != 0 || !ops_parse(text.substr(pre.size()), ops)) { fprintf(stderr, "bad replay file\n"); return 2; }
@@ -676,6 +737,14 @@ int main(int argc, char** argv) {
     return 0;
   }
 
+  if (a.shard == 0) {
+    for (int w = 0; w < wide::kProbes; w++) {
+      rep.current_case = "prop=C12 wide=" + std::to_string(w); rep.evaluations++;
+      std::string m = wide::run(w);
+      if (!m.empty()) rep.fail(m, rep.current_case, "C12|wide|" + m.substr(0, m.find(':')));
+      else { rep.label("wide-variant-probes"); rep.nontriv(hash_str(rep.current_case)); }
+    }
+  }
   const std::string only = a.get("only");   // "", "exhaustive" or "random" (development aid)
   long n_cross = 0, n_self = 0, n_threw = 0, n_conv = 0, n_oor = 0;
   auto run_case = [&](const std::vector<Op>& ops) -> std::string {
